@@ -19,10 +19,12 @@ Proved for all inputs (unbounded image sizes and coordinates):
   (`c36_drawLine1_in_image`, `c36_bresenham_length`).
 Bounded (kernel evaluation of a complete finite scope, labelled as such):
 * **T2b** Bresenham points lie in the bounding box of the endpoints — all lines with endpoints
-  in `[0,5]²` (`c36_bresenham_bbox_bounded`, in `Props/C36Bounded`).
+  in `[0,4]²` (`c36_bresenham_bbox_bounded`, in `Props/C36Bounded`).
 * **T1/S5** `find_contours` terminates within the fuel bound, and every contour point is an
   in-image foreground pixel with a background pixel or the image edge in its 8-neighbourhood —
-  all masks up to 3×3 in both modes (`c36_contours_bounded`, in `Props/C36Bounded`).
+  all masks with `rows, cols ≤ 3`, `rows·cols ≤ 6` in both modes
+  (`c36_contours_bounded_small`, in `Props/C36Bounded`; all 3×3 masks were also checked this
+  way once but take > 5 min of kernel time and are left to the exhaustive correspondence run).
 Not proved in general: T1 for arbitrary masks, the minor-axis bound of Bresenham, `FillIter`
 (T3) — these are covered by the correspondence/oracle runs only.
 -/
